@@ -57,6 +57,9 @@ class SMod:
         return "SMod(%s)" % self.dotted
 
 
+CLASS_MODELS = {}      # class qualname -> constructor model (used only under policy 'opaque')
+
+
 class SCls:
     def __init__(self, ci):
         self.ci = ci
@@ -1330,6 +1333,12 @@ class Interp:
         raise Unsupported("call of %r" % (fn,), node)
 
     def instantiate(self, ci, args, kwargs, fr, node):
+        if self.ctx.policy.get(ci.qualname) == "opaque":
+            # the verified function's contract asks for this class to be an opaque library object (calls={...: 'opaque'})
+            m = CLASS_MODELS.get(ci.qualname)
+            if m is None:
+                raise Unsupported("no opaque model for class %s" % ci.qualname, node)
+            return m(self, args, kwargs, fr, node)
         ref = self.run.alloc(HObj(ci.name, {}))
         init = self.repo.find_method(ci, "__init__")
         if init is not None:
